@@ -20,10 +20,13 @@ import (
 	"bytes"
 	"context"
 	"encoding/json"
+	"errors"
 	"fmt"
+	"io/fs"
 	"os"
 	"path/filepath"
 	"sort"
+	"syscall"
 
 	"github.com/compose-spec/compose-go/v2/dotenv"
 	"github.com/compose-spec/compose-go/v2/errdefs"
@@ -701,8 +704,14 @@ func (p Project) WithServicesLabelsResolved(discardLabelFiles bool) (*Project, e
 	return newProject, nil
 }
 
+// fileIsMissing tells whether the error of os.Stat means that nothing exists at the path:
+// the path itself is absent, or one of its parents is not a directory.
+func fileIsMissing(err error) bool {
+	return errors.Is(err, fs.ErrNotExist) || errors.Is(err, syscall.ENOTDIR)
+}
+
 func loadEnvFile(envFile EnvFile, resolve dotenv.LookupFn) (Mapping, error) {
-	if _, err := os.Stat(envFile.Path); os.IsNotExist(err) {
+	if _, err := os.Stat(envFile.Path); fileIsMissing(err) {
 		if envFile.Required {
 			return nil, fmt.Errorf("env file %s not found: %w", envFile.Path, err)
 		}
@@ -713,7 +722,7 @@ func loadEnvFile(envFile EnvFile, resolve dotenv.LookupFn) (Mapping, error) {
 }
 
 func loadLabelFile(labelFile string, resolve dotenv.LookupFn) (Mapping, error) {
-	if _, err := os.Stat(labelFile); os.IsNotExist(err) {
+	if _, err := os.Stat(labelFile); fileIsMissing(err) {
 		return nil, fmt.Errorf("label file %s not found: %w", labelFile, err)
 	}
 
